@@ -232,6 +232,17 @@ def check_enumeration(rec, rect, sheet='S'):
                  for c in range(c1, c2 + 1)]
     if [[(x.col_idx, x.row) for x in col] for col in cols] != want_cols:
         rec.fail('enum:cols', case, 'cols disagrees')
+    if a.is_range:
+        # the same when the rows / columns are collected first, read later
+        late_rows = [[(x.col_idx, x.row) for x in row] for row in list(a.rows)]
+        late_cols = [[(x.col_idx, x.row) for x in col] for col in list(a.cols)]
+        if late_rows != want:
+            rec.fail('enum:rows:collected-first', case,
+                     f'list(rows) then read: {late_rows} expected {want}')
+        if late_cols != want_cols:
+            rec.fail('enum:cols:collected-first', case,
+                     f'list(cols) then read: {late_cols} expected '
+                     f'{want_cols}')
     if any(x.sheet != sheet for row in rr for x in row):
         rec.fail('enum:sheet', case, 'member cell lost the sheet')
     inside = cells_of(rect)
